@@ -545,7 +545,7 @@ func TestC24(t *testing.T) {
 	defer r.Finish()
 	r.Rule("ont: for every tracked-set size N: calibration (honest all-distinct k=0..N) then bookkeeper lists of shapes {subset around threshold, superset with foreign keys, one key repeated, few distinct + repeats, invalid/stolen signatures, honest quorum with shuffled/extra signatures, bookkeeper list longer than the signature list (0/1/T-1 signatures), signature list longer than the bookkeeper list (garbage/repeated/foreign/empty padding), random kind vectors with random truncation} through syncCrossChainMsg and ImportOuterTransfer; neo: for every (n,m): witnesses of shapes {honest, below, one key repeated, below+repeats, below+foreign/bad, other committee's script, same keys with 1-of-n script, random}; distinct = (router, N or (n,m), shape, kind vector, entry, outcome)")
 	r.Assume("ont: the property does not fix 'the required number'; it is taken as the smallest k for which the router accepts an honest message signed by k distinct tracked members (calibrated per N on the running code; documented formula ceil(N/3) is recorded for comparison) and must be >= 1")
-	r.Assume("neo: the required number is the m of the tracked m-of-n consensus script; neo3/neo3legacy: the k for which an honest k-of-n witness of k distinct state validators is accepted (calibrated per n; documented n-(n-1)/3)")
+	r.Assume("neo: the required number is the m of the tracked m-of-n consensus script; neo3/neo3legacy: the k for which an honest k-of-n witness of k distinct state validators is accepted (calibrated per n) and it must not be smaller than NEO N3's own quorum for designated state validators, n-(n-1)/3")
 	r.Assume("signature validity is judged with ontology-crypto / neo-gogogo verification of each listed signature against each tracked member key")
 	r.Assume("only 'accepted => enough distinct tracked valid signers' is asserted; refusals of sufficient lists (e.g. out-of-order NEO signatures) are not violations")
 
